@@ -49,6 +49,13 @@ CLAIMED = {
             "symbolic initial poses and joint placement.", "4/C05",
             "symbolic execution of the real joint code on z3-term jets + z3 nlsat per scalar obligation; float replay of models",
             "Bounded configuration grid (see evidence.coverage.bounds); rod cross-section pairings are outside."),
+    "C06": ("proof", "Gap = signed distance (plane: distance bound for every plane point and equality at the foot point; spheres: centre distance "
+            "minus radii), slip velocity = tangential relative velocity of the material contact points obtained from the subsystems' own v_P, and the "
+            "whole derivative hierarchy (g_N_dot, W_N, g_N_ddot, gamma_F_dot, W_F, every _q/_u routine) are decided entry by entry for all real states; "
+            "every System-level contact derivative returns or raises NotImplementedError.", "4/C06",
+            "symbolic execution of the real contact code on z3-term jets + z3 nlsat per scalar obligation (pinned-input refutation first); float replay of models",
+            "Bounded grid (evidence.coverage.bounds). Sphere2Sphere friction q-derivatives are decided per basis direction; in the quick tier only two "
+            "seeded directions with a short time-out (undecided entries are listed as inconclusive). Known finding C06-s2s-gamma_F_dot."),
 }
 
 NOT_APPLICABLE = {
